@@ -25,7 +25,7 @@ import (
 func init() {
 	Registry["C13"] = &Check{
 		Scenarios: c13Scenarios,
-		Rule: "client side: MaxRetransmits R in {0,1,2}, WatchdogInterval 3 s, RetransmitInterval 1 s on the virtual clock; the peer's reaction to the n-th DWR transmission is scripted from {success DWA after 0, 1/2 or 1 interval (1 = exact tie with the retransmission timer), DWA 5012 at once, silence}, two dials through one state machine, one with the watchdog off and one with it on, in either order (the watched connection stays open and is probed every interval, the other never sees a DWR); server side: every sequence of <=3 DWRs over {fresh identifiers, the previous identifiers again, the same with the T flag, fresh with the T flag, the same with the P flag, zero identifiers with T} is answered DWR by DWR; scripts with other non-success answers (1001, 3004, a DWA without Result-Code) and with a peer that leaves a DWR unanswered but sends a DWR of its own at that instant, plus five burst scripts with answers delayed by 3/2 and 5/2 intervals (several late answers landing inside one later waiting window); all scripts of length <=2 (thorough 3), silence afterwards, so every run ends with the watchdog closing the connection; every schedule of watchdog thread, reader, timers and peer up to preemption bound 2 (thorough: unbounded for scripts of length <=1); peer steps and due timers are free transitions, so every ordering of answer / timer / reader is explored already at bound 0. In every other scenario the application replaces the connection context after the handshake by one derived from it that carries a value of its own and has been cancelled. Oracle: the observed (time, hop-by-hop id) sequence of DWRs and the close time must be one of the timelines of a reference model (branching only at exact ties). Redial: the peer of a first connection leaves the first DWR unanswered and disconnects 0 or 1/2 interval later, the application redials at once with the same Client, and the second connection (peer answers two DWRs, then silence) must show the model's timeline measured from its own handshake (R in {0,1}). A handshake that takes longer than WatchdogInterval (the peer answers only the retransmitted CER): no DWR before the CEA, the first one interval after it. Two live connections of one Client (dialled one after the other, both peers answer every DWR): neither is closed and each sees one DWR per interval. A client with the watchdog enabled answers a DWR its handshaken peer sends (between rounds and at the instant of its own DWR). Server side: one state machine serves 40 peers one after the other (handshake, DWR, disconnect each); for every DWR from a handshaken peer over {both identity AVPs, Origin-Host missing, Origin-Realm missing, with Origin-State-Id, Origin-Host in another letter case, another Origin-Host} x ids {0,1,2^31,2^32-1}^2 the state machine must answer a success DWA with the local identity and the request's ids.",
+		Rule: "client side: MaxRetransmits R in {0,1,2}, WatchdogInterval 3 s, RetransmitInterval 1 s on the virtual clock; the peer's reaction to the n-th DWR transmission is scripted from {success DWA after 0, 1/2 or 1 interval (1 = exact tie with the retransmission timer), DWA 5012 at once, silence}, a transport that takes 3/2 intervals to accept the first DWR while the peer answers at once (R 0 and 1: no retransmission, no close); two dials through one state machine, one with the watchdog off and one with it on, in either order (the watched connection stays open and is probed every interval, the other never sees a DWR); server side: every sequence of <=3 DWRs over {fresh identifiers, the previous identifiers again, the same with the T flag, fresh with the T flag, the same with the P flag, zero identifiers with T} is answered DWR by DWR; scripts with other non-success answers (1001, 3004, a DWA without Result-Code) and with a peer that leaves a DWR unanswered but sends a DWR of its own at that instant, plus five burst scripts with answers delayed by 3/2 and 5/2 intervals (several late answers landing inside one later waiting window); all scripts of length <=2 (thorough 3), silence afterwards, so every run ends with the watchdog closing the connection; every schedule of watchdog thread, reader, timers and peer up to preemption bound 2 (thorough: unbounded for scripts of length <=1); peer steps and due timers are free transitions, so every ordering of answer / timer / reader is explored already at bound 0. In every other scenario the application replaces the connection context after the handshake by one derived from it that carries a value of its own and has been cancelled. Oracle: the observed (time, hop-by-hop id) sequence of DWRs and the close time must be one of the timelines of a reference model (branching only at exact ties). Redial: the peer of a first connection leaves the first DWR unanswered and disconnects 0 or 1/2 interval later, the application redials at once with the same Client, and the second connection (peer answers two DWRs, then silence) must show the model's timeline measured from its own handshake (R in {0,1}). A handshake that takes longer than WatchdogInterval (the peer answers only the retransmitted CER): no DWR before the CEA, the first one interval after it. Two live connections of one Client (dialled one after the other, both peers answer every DWR): neither is closed and each sees one DWR per interval. A client with the watchdog enabled answers a DWR its handshaken peer sends (between rounds and at the instant of its own DWR). Server side: one state machine serves 40 peers one after the other (handshake, DWR, disconnect each); for every DWR from a handshaken peer over {both identity AVPs, Origin-Host missing, Origin-Realm missing, with Origin-State-Id, Origin-Host in another letter case, another Origin-Host} x ids {0,1,2^31,2^32-1}^2 the state machine must answer a success DWA with the local identity and the request's ids.",
 		Assume: []string{"virtual time: writes and computation take no time", "data-race freedom between visible operations (audited separately with -race)"},
 		QuickBudget: 150, ThoroughBudget: 2400,
 	}
@@ -126,6 +126,9 @@ func c13Scenarios(tier string) []*Scenario {
 	}
 	for _, flip := range []bool{false, true} {
 		out = append(out, c13MixedDials(flip, bound))
+	}
+	for R := 0; R <= 1; R++ {
+		out = append(out, c13SlowWrite(R, bound))
 	}
 	out = append(out, &Scenario{Name: "server/dwr-grid", Seq: c13Server})
 	out = append(out, &Scenario{Name: "server/dwr-sequences", Seq: c13ServerSeqs})
@@ -627,6 +630,72 @@ func c13MixedDials(watchedFirst bool, bound int) *Scenario {
 	}
 	return &Scenario{Name: fmt.Sprintf("two-dials-one-state-machine/watched-first=%v", watchedFirst), Body: body, Check: check, Bound: bound, Horizon: 5 * c13W / 2,
 		Outcome: func(s *vs.Sched) string { return fmt.Sprint(len(c13mixed.dwrsWatched), c13mixed.watched.Closed) }}
+}
+
+// c13SlowWrite: the transport takes 3/2 RetransmitInterval to accept the first DWR (a peer that
+// drains slowly, congestion) and the peer answers every DWR the moment it has received it. The
+// time the transport needs is not the peer's: the DWR is not retransmitted, the connection stays.
+var c13sw struct {
+	conn *vnet.Conn
+	hbh  []uint32
+	ok   bool
+}
+
+func c13SlowWrite(R int, bound int) *Scenario {
+	body := func() {
+		st := &c13sw
+		st.hbh, st.ok = nil, false
+		conn := vnet.NewConn("C")
+		conn.Pieces = 1
+		conn.WriteDelays = []time.Duration{0, 3 * c13I / 2} // the CER at once, the first DWR slowly
+		st.conn = conn
+		settings := &sm.Settings{OriginHost: "cli", OriginRealm: "test", VendorID: 13, ProductName: "prod",
+			HostIPAddresses: []datatype.Address{datatype.Address(net.ParseIP("10.0.0.2"))}}
+		cli := &sm.Client{Handler: sm.New(settings), Dict: dict.Default, MaxRetransmits: uint(R), RetransmitInterval: c13I,
+			EnableWatchdog: true, WatchdogInterval: c13W,
+			AuthApplicationID: []*diam.AVP{diam.NewAVP(avp.AuthApplicationID, avp.Mbit, 0, datatype.Unsigned32(4))}}
+		vs.GoNamed("peer", true, func() {
+			p := &Peer{C: conn}
+			for {
+				m := p.Next()
+				if m == nil {
+					return
+				}
+				switch {
+				case m.Hdr.Code == 257:
+					conn.Deliver(peerAnswer(m, 2001, true))
+				case m.Hdr.Code == 280 && m.Hdr.Flags&0x80 != 0:
+					st.hbh = append(st.hbh, m.Hdr.HbH)
+					conn.Deliver(peerAnswer(m, 2001, false))
+				}
+			}
+		})
+		c, err := cli.NewConn(conn, "peer")
+		st.ok = c != nil && err == nil
+	}
+	check := func(s *vs.Sched) string {
+		st := &c13sw
+		if !st.ok {
+			return "harness: dial failed"
+		}
+		var v []string
+		if st.conn.Closed {
+			v = append(v, fmt.Sprintf("the connection was closed at %v although the peer answered every DWR as soon as it had received it (%d DWRs seen; the transport took 3/2 intervals to accept the first)", st.conn.ClosedAt, len(st.hbh)))
+		}
+		seen := map[uint32]bool{}
+		for _, h := range st.hbh {
+			if seen[h] {
+				v = append(v, fmt.Sprintf("DWR %#x was transmitted twice although its first transmission was answered at once", h))
+			}
+			seen[h] = true
+		}
+		if len(st.hbh) < 2 {
+			v = append(v, fmt.Sprintf("%d DWRs within three watchdog intervals, expected at least 2", len(st.hbh)))
+		}
+		return strings.Join(v, " | ")
+	}
+	return &Scenario{Name: fmt.Sprintf("slow-transport-write/R%d", R), Body: body, Check: check, Bound: bound, Horizon: 3 * c13W,
+		Outcome: func(s *vs.Sched) string { return fmt.Sprint(len(c13sw.hbh), c13sw.conn.Closed) }}
 }
 
 // c13ServerSeqs: a handshaken peer sends SEQUENCES of DWRs - fresh identifiers, the identifiers
